@@ -14,6 +14,7 @@ import time
 from common import (Infra, go_must_pass, go_test, harness_overlay, read_ndjson, run_tlc, write_ndjson)
 
 HOST_REGIMES = {"second-v4-hostgroup", "second-v6-hostgroup", "undo-after-partial-add", "first-group-used-after-undo",
+                "place-of-undone-host-taken-then-host-again",
                 "undone-host-looked-up-again", "host-stored-in-two-groups", "interleaved-family-groups", "mixed-families"}
 SKIP_REGIMES = {"skip-saturated", "split-then-saturated-skip", "wrap-in-skipped-packets", "wrap-inside-empty-run"}
 MERGE_HOST_REGIMES = {"addindex-pops-partially-added-hosts", "merged-file-has-second-group-of-a-family",
